@@ -8,7 +8,8 @@
    of a fix breaks a pin here.  The `*_variant_refuted` lemmas show that the statements are false for
    the plain string-prefix tests / the two-test filter the code had before. *)
 From PV Require Import Base.Prelude Model.Paths Model.Include Model.Require Model.FilesInst
-  Spec.PathSpec Proofs.PathProofs Proofs.IncludeProofs Proofs.RequireProofs Instances.HoldsC12.
+  Model.RequireWalk Spec.PathSpec Proofs.PathProofs Proofs.IncludeProofs Proofs.RequireProofs
+  Proofs.RequireWalkProofs Instances.HoldsC12.
 
 (* the posixpath model computes reference locations: abspath / normpath do not move a path *)
 Theorem C12_abspath_location : forall cwd p,
@@ -124,6 +125,18 @@ Theorem C12_require_variants_refuted :
   /\ (require_filter_now [46; 46] = false /\ require_filter_now [] = false /\ require_filter_now [97; 47; 46; 46] = false).
 Proof. exact require_variants_refuted. Qed.
 Print Assumptions C12_require_variants_refuted.
+
+(* the whole recursion of _evaluate_require (Model/RequireWalk.v: for every file content, abstracted as the
+   list of require strings per file, every file system, every sane load path, every depth): the sequence of
+   os.path.isfile probes and open() calls satisfies the instance predicate the monitor evaluates on the real
+   run - every access lies under the directory of the main file, of a file opened before it, or under a
+   directory their load-path patterns name *)
+Theorem C12_require_model_holds : forall requires_of isfile lua_path cwd fuel main,
+  forallb pattern_saneb (split_on 59 lua_path) = true ->
+  holds_C12_require cwd lua_path main []
+    (map to_event (fst (evaluate_require requires_of isfile lua_path fuel main))) = true.
+Proof. exact require_model_holds. Qed.
+Print Assumptions C12_require_model_holds.
 
 (* the monitors: a trace they accept only touches paths under a root (static roots for
    #include; for require the roots grow with every opened - hence requiring - file) *)
